@@ -294,6 +294,7 @@ func RunStream(c *Ctx, cfg StreamCfg, handle func(w *Worker, sc StrCase, res *[s
 		for vi, v := range spec.Versions {
 			vi, v := vi, v
 			pairs := FindCollisionPairs(c.Rand("collision-pairs", v.Name), v, c.Pick(1<<20, 1<<22), c.Pick(48, 512))
+			c.Floor("hash-collision pairs of equal-length vectors v"+v.Name, int64(len(pairs)), 40)
 			c.mu.Lock()
 			c.Counts["collision-pairs-v"+v.Name] += int64(len(pairs))
 			for _, p := range pairs {
